@@ -8,7 +8,7 @@ CONSTANTS
   MaxDepth = 0
   SubStages = {}
   PostStages = {}
-  NRandom = 14000
+  NRandom = 9000
   RDepth = 5
   RLen = 6
   RVals = {1, 2, 3, 4}
